@@ -55,9 +55,10 @@ def toInteger (E : Env) (v : Val) : FV :=
 /-- §11.5.2 division = IEEE 754 division -/
 def divide (l r : FV) : FV := div l r
 
-/-- §11.8.5 abstract relational comparison on primitives; strings compare by code units.
-    For byte strings that are valid UTF-8 without astral characters byte order = code unit order;
-    the spec side used by the driver decodes (see `Dev.strcmpAstral`). -/
+/-- code-unit order on Go strings: what ES5 §11.8.5 step 4 compares -/
+def unitLt (a b : List Nat) : Bool := strLt (OttoVerif.Str.unitsOfBytes a) (OttoVerif.Str.unitsOfBytes b)
+
+/-- §11.8.5 abstract relational comparison on primitives; strings compare by code units (`cmpStr` = `unitLt`). -/
 def lessThan (E : Env) (cmpStr : List Nat → List Nat → Bool) (x y : Val) : Tri :=
   match x, y with
   | .str a, .str b => if cmpStr a b then .t else .f
